@@ -539,20 +539,14 @@ Qed.
 Definition lever_sf (x y : vec) : Q :=
   let sf := (nthq (molv c) 0 / Fmol c - nthq x 0) / (nthq y 0 - nthq x 0) in
   if qltb 1 sf then 1 else if qltb sf 0 then 0 else sf.
-Definition lever_ok (x y : vec) : Prop :=
-  forall p, (p < length (idx c))%nat ->
-    0 <= Fmol c * lever_sf x y * nthq y p <= nthq (molv c) p.
-
-Lemma lever_reach x y m : (hyp -> lever_ok x y) -> R (ms m) -> R (ms (om (lever c x y m))).
+Lemma lever_sf_01 x y : 0 <= lever_sf x y <= 1.
 Proof.
-  intros HL R0. unfold lever.
-  destruct (qzerob (nthq y 0 - nthq x 0)); red1; rauto.
-  match goal with |- context [if negb ?b then _ else _] => destruct (negb b) end; red1; rauto.
-  change (R (set_flows c (vscale (Fmol c * lever_sf x y) (fit (length (idx c)) y)) (ms m))).
-  apply reach_set_flows; auto. intros H _ _ p Hp.
-  rewrite nthq_vscale. rewrite nthq_fit by exact Hp.
-  exact (HL H p Hp).
+  unfold lever_sf. destruct (qltb 1 _) eqn:A; [lra|]. destruct (qltb _ 0) eqn:B; [lra|].
+  apply qltb_false in A. apply qltb_false in B. lra.
 Qed.
+(* what non-negativity still needs of the lever rule now that v is clipped to mol_vle: the composition that multiplies the
+   split (the bubble-point y of an x= specification, the user's y of a y= specification) has no negative entry *)
+Definition lever_ok (y : vec) : Prop := forall p, 0 <= nthq y p.
 
 Lemma solve_v_ms T P m : ms (fst (solve_v orc c T P m)) = ms m.
 Proof. reflexivity. Qed.
@@ -611,6 +605,16 @@ Proof.
   - split; [lra|]. rewrite B. rewrite nthq_vscale, nthq_fit by exact Hp. specialize (Hx p).
     assert (0 <= F * (1 - V) * nthq x p) by (apply Qmult_le_0_compat; [apply Qmult_le_0_compat|]; auto; lra). lra.
   - split; lra.
+Qed.
+
+Lemma lever_reach x y m : (hyp -> lever_ok y /\ 0 <= Fmol c) -> R (ms m) -> R (ms (om (lever c x y m))).
+Proof.
+  intros HL R0. unfold lever.
+  destruct (qzerob (nthq y 0 - nthq x 0)); red1; rauto.
+  match goal with |- context [if negb ?b then _ else _] => destruct (negb b) end; red1; rauto.
+  change (R (set_flows c (capv (vscale (Fmol c * lever_sf x y) (fit (length (idx c)) y)) (molv c)) (ms m))).
+  apply reach_set_flows; auto. intros H _ M p Hp. destruct (HL H) as (Y & F).
+  apply cap_bubble; auto. apply lever_sf_01.
 Qed.
 
 Definition comps_nn : Prop :=
@@ -941,14 +945,19 @@ Variable orc : oracle.
 Ltac red1 := cbn [ms mset tick mk fst snd om].
 Ltac rauto := repeat first [ assumption | apply r_T | apply r_P | apply r_refl ].
 
-(* what the x / y specifications need for non-negativity: the lever-rule vapour flows lie in [0, mol] *)
-Definition xy_ok (bubble : bool) (sv : Q) (comp : vec) (m : mach) : Prop :=
-  forall s1 c, setup cf (ms m) = SOk s1 c ->
-    let n := length (idx c) in
-    if bubble then lever_ok c comp (fit n (snd (o_bubble orc (mk m) sv)))
-    else lever_ok c (fit n (snd (o_dew orc (mk m) sv))) comp.
+(* what the x / y specifications need for non-negativity now that the lever-rule flows are clipped: the composition that
+   multiplies the split has no negative entry (the bubble-point y for x=: an oracle contract; the user's y for y=) and
+   N_solutes >= 0 *)
+Definition xy_ok (bubble : bool) (comp : vec) : Prop :=
+  (if bubble then comps_nn orc else lever_ok comp) /\ nsol_nn cf.
 
-Lemma set_xy_post bubble specT sv comp m : wf (ms m) -> (hyp -> xy_ok bubble sv comp m) ->
+Lemma lever_ok_fit n y : lever_ok y -> lever_ok (fit n y).
+Proof.
+  intros H p. destruct (Nat.lt_ge_cases p n) as [L|G]; [rewrite nthq_fit by exact L; apply H|].
+  rewrite nthq_over by (rewrite fit_length; exact G). lra.
+Qed.
+
+Lemma set_xy_post bubble specT sv comp m : wf (ms m) -> (hyp -> xy_ok bubble comp /\ nn (ms m)) ->
   post hyp cf (ms m) (set_xy cf orc bubble specT sv comp m).
 Proof.
   intros W HH. apply post_of_setup; auto.
@@ -956,14 +965,16 @@ Proof.
     unfold set_xy. rewrite E. red1.
     destruct (negb (cN c =? 2)); red1; rauto.
     unfold call_bubble, call_dew.
+    assert (HF : hyp -> 0 <= Fmol c) by (intros H; destruct (HH H) as ((_ & NS) & N); eapply setup_Fmol_nn; eauto).
     destruct bubble; red1.
     + destruct (o_bubble orc (mk m) sv) as [a y] eqn:EB. red1.
       apply lever_reach; auto.
-      * intros H. specialize (HH H s1 c E). cbn zeta in HH. rewrite EB in HH. exact HH.
+      * intros H. split; [|apply HF; exact H]. destruct (HH H) as ((CN & _) & _). cbn [xy_ok] in CN.
+        apply lever_ok_fit. intros p. destruct (CN (mk m) sv p) as (C1 & _). rewrite EB in C1. exact C1.
       * red1. destruct specT; rauto.
     + destruct (o_dew orc (mk m) sv) as [a y] eqn:EB. red1.
       apply lever_reach; auto.
-      * intros H. specialize (HH H s1 c E). cbn zeta in HH. rewrite EB in HH. exact HH.
+      * intros H. split; [|apply HF; exact H]. destruct (HH H) as ((CN & _) & _). exact CN.
       * red1. destruct specT; rauto.
   - intros s E. unfold set_xy. rewrite E. reflexivity.
   - intros e s E. unfold set_xy. rewrite E. reflexivity.
@@ -973,8 +984,8 @@ Qed.
 Definition vle_hyp (sp : spec) (s : vst) : Prop :=
   match sp with
   | SpTV _ V | SpPV _ V => 0 <= V <= 1 /\ comps_nn orc /\ nsol_nn cf
-  | SpTx a x | SpPx a x => xy_ok true a x (mkm s 0)
-  | SpTy a y | SpPy a y => xy_ok false a y (mkm s 0)
+  | SpTx _ _ | SpPx _ _ => xy_ok true []
+  | SpTy _ y | SpPy _ y => xy_ok false y
   | _ => True
   end.
 
@@ -1007,8 +1018,8 @@ Proof.
     intros H. destruct (HH H) as (N & A & B & C). auto.
   - apply set_TH_post; auto.
   - apply set_TH_post; auto.
-  - apply set_xy_post; auto. intros H. apply (HH H).
-  - apply set_xy_post; auto. intros H. apply (HH H).
+  - apply set_xy_post; auto. intros H. destruct (HH H) as (N & X). split; assumption.
+  - apply set_xy_post; auto. intros H. destruct (HH H) as (N & X). split; assumption.
   - apply post_catch; [apply thermal_ok; intros; auto|]. apply set_PV_post; auto.
     intros H. destruct (HH H) as (N & A & B & C). auto.
   - apply post_catch; [apply thermal_ok; intros; auto|]. apply set_PH_post; auto.
@@ -1024,8 +1035,8 @@ Proof.
       (* non-negativity of the state the first attempt left: set_PS needs no outside hypothesis for it *)
       pose proof (set_PH_post True cf orc true P Sv (mkm s 0) W) as PT. rewrite E1 in PT.
       destruct PT as [_ _ CT _]. apply CT; auto.
-  - apply set_xy_post; auto. intros H. apply (HH H).
-  - apply set_xy_post; auto. intros H. apply (HH H).
+  - apply set_xy_post; auto. intros H. destruct (HH H) as (N & X). split; assumption.
+  - apply set_xy_post; auto. intros H. destruct (HH H) as (N & X). split; assumption.
 Qed.
 End Calls2.
 
